@@ -10,8 +10,10 @@ SetOf(s) == {s[i] : i \in DOMAIN s}
 Mods == T.mods
 \* every generated text is valid Python
 Compilable == \A i \in DOMAIN Mods : Mods[i].compilable
-\* every import of a generated module finds the symbol among that module's exports
-ImportOnlyExported == \A i \in DOMAIN T.imports : T.imports[i].generated => T.imports[i].sym \in SetOf(T.imports[i].exports)
+\* every import of a generated module finds the symbol among that module's exports (the export list of a module
+\* is only known when the module ran to its end: not for the members of an import cycle, which pysnmp cannot load)
+ImportOnlyExported == \A i \in DOMAIN T.imports :
+   (T.imports[i].generated /\ T.imports[i].from_loaded) => T.imports[i].sym \in SetOf(T.imports[i].exports)
 \* no class or object is used before it is defined (NameError while executing the text)
 UseAfterDefine == \A i \in DOMAIN Mods : ~Mods[i].nameerror
 \* the set loads together, in the order asked for
